@@ -587,23 +587,59 @@ theorem c08_tokens_rate_interval (qps burst : Int) (pre reqs : List (List Int ×
 /-! ### every interleaving of concurrent callers (granularity: one `TryAcquireN` = one atomic step that reads
     the clock itself, as in the fixed code; exclusion of `globalTokenBucket.lock` trusted) -/
 
+/-- **A `Resize` to the parameters the bucket already has is the identity on the bucket** (tokens and clock kept):
+    re-syncing a cluster's spec after an edit of ANOTHER schema must not refill this bucket. -/
+theorem c08_tokens_resize_same_params (b : Bucket) : bucketResize b b.qps b.burst = (b, false) :=
+  bucketResize_same b
+
+/-- hence acquisitions interleaved with any number of such `Resize` calls are granted exactly what they are
+    granted without them … -/
+theorem c08_tokens_resize_transparent (ops : List TBOp) (b : Bucket)
+    (hres : ∀ op ∈ ops, match op with | .resize q bu => q = b.qps ∧ bu = b.burst | .acquire .. => True) :
+    runTBOps b ops = runAcq b (acquisitions ops) := by
+  induction ops generalizing b with
+  | nil => rfl
+  | cons op rest ih =>
+    cases op with
+    | acquire nows ask =>
+      have hp := tbLoop_params nows b ask
+      have := ih (tbLoop b ask nows).1 (by rw [hp.1, hp.2]; exact fun o ho => hres o (List.mem_cons_of_mem _ ho))
+      simp only [runTBOps, acquisitions, runAcq, this]
+    | resize q bu =>
+      have hs : q = b.qps ∧ bu = b.burst := hres (.resize q bu) (List.mem_cons_self ..)
+      simp only [runTBOps, acquisitions, hs.1, hs.2, bucketResize_same]
+      exact ih b (fun o ho => hres o (List.mem_cons_of_mem _ ho))
+
+/-- … so **the bound spans them**: Σ grants ≤ burst + qps·T over any interval in which the bucket's parameters
+    do not really change, however often it is re-synced in between. -/
+theorem c08_tokens_rate_across_resize (ops : List TBOp) (b : Bucket) (t0 : Int) (hq : 0 ≤ b.qps) (hb : 0 ≤ b.burst)
+    (htok : 0 ≤ b.tokens) (hm : Mono b t0)
+    (hres : ∀ op ∈ ops, match op with | .resize q bu => q = b.qps ∧ bu = b.burst | .acquire .. => True)
+    (hok : TimesOk t0 (acquisitions ops)) :
+    (((runTBOps b ops).2 : Int) : Rat) ≤
+      (b.burst : Rat) + tokensFromNs b.qps (endTime t0 (acquisitions ops) - t0) := by
+  rw [c08_tokens_resize_transparent ops b hres]
+  exact c08_tokens_rate (acquisitions ops) b t0 hq hb htok hm hok
+
 /-- **Every interleaving**: whatever callers do whatever `TryAcquireN` calls in whatever order, with time
-    passing in between, the tokens granted between two instants are at most `burst + qps·T`. -/
+    passing in between and with `Resize` calls that do not change the bucket's parameters anywhere in between,
+    the tokens granted between two instants are at most `burst + qps·T`. -/
 theorem c08_tokens_rate_conc (steps : List TBStep) (s : TBSys) (hq : 0 ≤ s.b.qps) (hb : 0 ≤ s.b.burst)
-    (htok : 0 ≤ s.b.tokens) (hm : Mono s.b s.clock) :
+    (htok : 0 ≤ s.b.tokens) (hm : Mono s.b s.clock) (hres : ∀ st ∈ steps, SameParams s.b.qps s.b.burst st) :
     ((tbRun s steps).granted : Rat) ≤
       (s.granted : Rat) + (s.b.burst : Rat) + tokensFromNs s.b.qps ((tbRun s steps).clock - s.clock) := by
-  obtain ⟨p1, p2, p3, p4, p5, _⟩ := tbRun_potential steps s hq hm
+  obtain ⟨p1, p2, p3, p4, p5, _⟩ := tbRun_potential steps s hq hm hres
   have h1 := avail_le_burst s.b s.clock
   have h2 := avail_nonneg (tbRun s steps).b (tbRun s steps).clock (by rw [p3]; exact hq) (by rw [p4]; exact hb) (p5 htok) p2
   grind
 
 /-- the invariants `c08_tokens_rate_conc` starts from hold in every reachable state of a new limiter -/
-theorem c08_tokens_conc_reachable (qps burst t0 : Int) (steps : List TBStep) (hq : 0 ≤ qps) :
+theorem c08_tokens_conc_reachable (qps burst t0 : Int) (steps : List TBStep) (hq : 0 ≤ qps)
+    (hres : ∀ st ∈ steps, SameParams qps burst st) :
     let s := tbRun ⟨t0, Bucket.init qps burst, 0⟩ steps
     s.b.qps = qps ∧ s.b.burst = burst ∧ 0 ≤ s.b.tokens ∧ Mono s.b s.clock := by
   have hm0 : Mono (Bucket.init qps burst) t0 := fun l hl => by simp [Bucket.init] at hl
-  obtain ⟨_, p2, p3, p4, p5, _⟩ := tbRun_potential steps ⟨t0, Bucket.init qps burst, 0⟩ hq hm0
+  obtain ⟨_, p2, p3, p4, p5, _⟩ := tbRun_potential steps ⟨t0, Bucket.init qps burst, 0⟩ hq hm0 hres
   exact ⟨p3, p4, p5 (by simp [Bucket.init]), p2⟩
 
 /-- **Each grant lies between 0 and the amount asked**; nothing is granted without `accept`; a grant is the ask
